@@ -94,15 +94,20 @@ class P(object):
         return "(%s, XAVal %s)" % (ctext(name), self.value())
 
     def cmd(self):
-        res = self.take("ID")
-        self.take("EQUAL")
-        name = self.take("ID")
+        if self.peek(1) == "LPAREN":            # COMMAND(...): the EEMS 2.0 form
+            res = None
+            name = self.take("ID")
+        else:
+            res = self.take("ID")
+            self.take("EQUAL")
+            name = self.take("ID")
         self.take("LPAREN")
         args, trail = [], False
         if self.peek() != "RPAREN":
             args, trail = self.seq(self.arg, "RPAREN")
         self.take("RPAREN")
-        return "{| xc_result := %s; xc_name := %s; xc_args := %s; xc_trail := %s |}" % (ctext(res), ctext(name), clist(args), cbool(trail))
+        return "{| xc_result := %s; xc_name := %s; xc_args := %s; xc_trail := %s |}" % (
+            "None" if res is None else "(Some %s)" % ctext(res), ctext(name), clist(args), cbool(trail))
 
     def program(self):
         cmds = []
